@@ -209,3 +209,322 @@ Proof.
     + apply from_seconds_big_pos; [exact Hm|lia].
 Qed.
 
+Lemma valid_sf_of_bits : forall b, 0 <= b < 2 ^ 64 ->
+  valid_binary prec emax (sf_of_bits b) = true.
+Proof.
+  intros b Hb. unfold sf_of_bits.
+  pose proof (Z.mod_pos_bound (b / 2 ^ 52) (2 ^ 11) ltac:(lia)) as HE.
+  pose proof (Z.mod_pos_bound b (2 ^ 52) ltac:(lia)) as Hm.
+  set (E := (b / 2 ^ 52) mod 2 ^ 11) in *. set (mt := b mod 2 ^ 52) in *.
+  destruct (Z.eqb_spec E 0).
+  - destruct (Z.eqb_spec mt 0); [reflexivity|].
+    cbn [valid_binary]. unfold SpecFloat.bounded, SpecFloat.canonical_mantissa.
+    rewrite Zpos_digits2_pos. rewrite Z2Pos.id by lia.
+    pose proof (Zdigits_le_Zpower radix2 52 mt) as Hd.
+    assert (Hd' : Zdigits radix2 mt <= 52) by (apply Hd; change (Zpower radix2 52) with (2 ^ 52); lia).
+    pose proof (Zdigits_gt_0 radix2 mt ltac:(lia)) as Hd0.
+    unfold SpecFloat.fexp, SpecFloat.emin, prec, emax.
+    apply andb_true_intro. split.
+    + apply Zeq_bool_true. lia.
+    + apply Z.leb_le. lia.
+  - destruct (Z.eqb_spec E 2047).
+    + destruct (Z.eqb_spec mt 0); reflexivity.
+    + cbn [valid_binary]. unfold SpecFloat.bounded, SpecFloat.canonical_mantissa.
+      rewrite Zpos_digits2_pos. rewrite Z2Pos.id by lia.
+      rewrite (Zdigits_unique radix2 (mt + 2 ^ 52) 53).
+      2:{ change (Zpower radix2 (53 - 1)) with (2 ^ 52). change (Zpower radix2 53) with (2 ^ 52 + 2 ^ 52). lia. }
+      unfold SpecFloat.fexp, SpecFloat.emin, prec, emax. change (2 ^ 11) with 2048 in HE.
+      apply andb_true_intro. split.
+      * apply Zeq_bool_true. lia.
+      * apply Z.leb_le. lia.
+Qed.
+
+Notation bf := (binary_float FloatOps.prec FloatOps.emax).
+Notation Bsub := (@Bminus FloatOps.prec FloatOps.emax PrimFloat.Hprec PrimFloat.Hmax mode_NE).
+Notation Bmul := (@Bmult FloatOps.prec FloatOps.emax PrimFloat.Hprec PrimFloat.Hmax mode_NE).
+
+Lemma fsub_B : forall x y : bf, fsub (B2SF x) (B2SF y) = B2SF (Bsub x y).
+Proof.
+  intros x y. unfold fsub.
+  change (SFsub prec emax) with (SFsub FloatOps.prec FloatOps.emax).
+  case x as [sx|sx| |sx mx ex Bx]; case y as [sy|sy| |sy my ey By];
+    [now (trivial || simpl; case Bool.eqb).. | ].
+  simpl. unfold Zminus. rewrite <- cond_Zopp_negb. apply binary_normalize_equiv.
+Qed.
+
+Lemma fmul_B : forall x y : bf, fmul (B2SF x) (B2SF y) = B2SF (Bmul x y).
+Proof.
+  intros x y. unfold fmul.
+  change (SFmul prec emax) with (SFmul FloatOps.prec FloatOps.emax).
+  case x as [sx|sx| |sx mx ex Bx]; case y as [sy|sy| |sy my ey By]; [now trivial.. | ].
+  simpl. rewrite B2SF_SF2B. apply binary_round_aux_equiv.
+Qed.
+
+(* B-level view of integer -> binary64 conversion *)
+Lemma sf_of_Z_B : forall z, Z.abs z < 2 ^ 53 ->
+  exists yB : bf, sf_of_Z z = B2SF yB /\ B2R yB = IZR z /\ is_finite yB = true.
+Proof.
+  intros z Hz. unfold sf_of_Z.
+  change (SpecFloat.binary_normalize prec emax z 0 false) with
+         (SpecFloat.binary_normalize FloatOps.prec FloatOps.emax z 0 false).
+  rewrite binary_normalize_equiv.
+  pose proof (binary_normalize_correct 53 1024 PrimFloat.Hprec PrimFloat.Hmax mode_NE z 0 false) as H.
+  cbv zeta in H.
+  assert (Hx : F2R (Float radix2 z 0) = IZR z) by (unfold F2R; simpl; lra).
+  rewrite Hx in H.
+  assert (Hg : generic_format radix2 (fexp 53 1024) (IZR z)).
+  { apply generic_format_FLT. apply (FLT_spec radix2 (3 - 1024 - 53) 53 (IZR z) (Float radix2 z 0)).
+    - symmetry. exact Hx.
+    - simpl. exact Hz.
+    - simpl. lia. }
+  rewrite round_generic in H; [|apply valid_rnd_N|exact Hg].
+  rewrite Rlt_bool_true in H.
+  2:{ rewrite <- abs_IZR. change (bpow radix2 1024) with (IZR (2 ^ 1024)).
+      apply IZR_lt. assert (2 ^ 53 < 2 ^ 1024) by (apply Z.pow_lt_mono_r; lia). lia. }
+  destruct H as [HR [Hfin _]].
+  eexists. split; [reflexivity|]. split; [exact HR|exact Hfin].
+Qed.
+
+(* truncation of a finite B-level float whose real value lies in [0, n] *)
+Lemma sf_trunc_bounds : forall (yB : bf) n, is_finite yB = true ->
+  (0 <= B2R yB <= IZR n)%R -> 0 <= sf_trunc (B2SF yB) <= n.
+Proof.
+  intros yB n Hfin [H0 Hn]. destruct yB as [s|s| |s m e Hb]; simpl in Hfin; try discriminate.
+  - cbn [B2SF sf_trunc]. simpl in Hn. apply le_IZR in Hn. lia.
+  - cbn [B2SF sf_trunc]. unfold B2R, F2R in H0, Hn. cbn [Fnum Fexp] in H0, Hn.
+    assert (Hbp : (0 < bpow radix2 e)%R) by apply bpow_gt_0.
+    destruct s.
+    + (* negative nonzero value contradicts 0 <= B2R *)
+      exfalso. cbn [cond_Zopp] in H0. rewrite opp_IZR in H0.
+      assert (0 < IZR (Z.pos m))%R by (apply IZR_lt; lia). nra.
+    + cbn [cond_Zopp] in H0, Hn. destruct (Z.leb_spec 0 e).
+      * rewrite <- IZR_Zpower in Hn by assumption. rewrite <- mult_IZR in Hn. apply le_IZR in Hn.
+        change (Zpower radix2 e) with (2 ^ e) in Hn.
+        assert (0 < 2 ^ e) by (apply Z.pow_pos_nonneg; lia). nia.
+      * assert (Hd : 0 < 2 ^ (- e)) by (apply Z.pow_pos_nonneg; lia).
+        split; [apply Z.div_pos; lia|].
+        assert (He : (bpow radix2 e * bpow radix2 (- e) = 1)%R).
+        { rewrite <- bpow_plus. replace (e + - e) with 0 by lia. reflexivity. }
+        assert (Hle : (IZR (Z.pos m) <= IZR (n * 2 ^ (- e)))%R).
+        { rewrite mult_IZR. change (2 ^ (- e)) with (Zpower radix2 (- e)). rewrite IZR_Zpower by lia.
+          assert (0 < bpow radix2 (- e))%R by apply bpow_gt_0.
+          replace (IZR (Z.pos m)) with (IZR (Z.pos m) * bpow radix2 e * bpow radix2 (- e))%R
+            by (rewrite Rmult_assoc, He; lra).
+          apply Rmult_le_compat_r; lra. }
+        apply le_IZR in Hle.
+        apply Z.div_le_upper_bound; lia.
+Qed.
+
+(* the floor step of from_seconds, for a finite non-zero double of magnitude
+   below 2^31 given by its B-level representation *)
+Lemma floor_spec : forall s m e (Hb : SpecFloat.bounded FloatOps.prec FloatOps.emax m e = true),
+  Z.pos m < 2 ^ 53 -> (0 <= e -> Z.pos m * 2 ^ e < 2 ^ 31) -> (e < 0 -> Z.pos m / 2 ^ (- e) < 2 ^ 31) ->
+  let x := S754_finite s m e in
+  let xB : bf := B754_finite s m e Hb in
+  exists z (flB : bf),
+    sf_floor x = B2SF flB /\ is_finite flB = true /\ B2R flB = IZR z /\
+    (0 <= B2R xB - IZR z < 1)%R /\ sf_to_int 64 (sf_floor x) = z /\
+    - 2 ^ 31 <= z < 2 ^ 31 /\ (if s then z <= -1 else 0 <= z).
+Proof.
+  intros s m e Hb Hm Hpos Hneg x xB.
+  assert (HxR : B2R xB = (IZR (cond_Zopp s (Z.pos m)) * bpow radix2 e)%R) by reflexivity.
+  destruct (Z.leb_spec 0 e) as [He|He].
+  - (* integral value *)
+    specialize (Hpos He). assert (Hp : 0 < 2 ^ e) by (apply Z.pow_pos_nonneg; lia).
+    set (z := cond_Zopp s (Z.pos m) * 2 ^ e).
+    exists z, xB. 
+    assert (Hfl : sf_floor x = x).
+    { unfold x. cbn [sf_floor]. destruct (Z.leb_spec 0 e); [reflexivity|lia]. }
+    assert (HzR : B2R xB = IZR z).
+    { rewrite HxR. unfold z. rewrite mult_IZR. change (2 ^ e) with (Zpower radix2 e).
+      rewrite IZR_Zpower by assumption. reflexivity. }
+    assert (Hzr : - 2 ^ 31 < z < 2 ^ 31 /\ (if s then z <= -1 else 0 <= z)).
+    { unfold z. change (2 ^ 31) with 2147483648 in *. destruct s; cbn [cond_Zopp]; split; nia. }
+    rewrite Hfl. split; [reflexivity|]. split; [reflexivity|]. split; [exact HzR|].
+    split; [rewrite HzR; lra|]. split.
+    + unfold x. cbn [sf_to_int]. destruct (Z.leb_spec 0 e); [|lia].
+      unfold clampZ. change (2 ^ (64 - 1)) with (2 ^ 63). pows. change (2 ^ 31) with 2147483648 in *.
+      unfold z in *. destruct s; cbn [cond_Zopp] in *; nia.
+    + split; [lia|tauto].
+  - specialize (Hneg He).
+    assert (Hd : 0 < 2 ^ (- e)) by (apply Z.pow_pos_nonneg; lia).
+    pose proof (Z.div_mod (Z.pos m) (2 ^ (- e)) ltac:(lia)) as Hdm.
+    pose proof (Z.mod_pos_bound (Z.pos m) (2 ^ (- e)) Hd) as Hr.
+    set (d := 2 ^ (- e)) in *. set (q := Z.pos m / d) in *. set (r := Z.pos m mod d) in *.
+    assert (Hq0 : 0 <= q) by (apply Z.div_pos; lia).
+    assert (HdR : (bpow radix2 e * IZR d = 1)%R).
+    { unfold d. change (2 ^ (- e)) with (Zpower radix2 (- e)). rewrite IZR_Zpower by lia.
+      rewrite <- bpow_plus. replace (e + - e) with 0 by lia. reflexivity. }
+    assert (Hbp : (0 < bpow radix2 e)%R) by apply bpow_gt_0.
+    assert (HmR : (IZR (Z.pos m) * bpow radix2 e = IZR q + IZR r * bpow radix2 e)%R).
+    { rewrite Hdm at 1. rewrite plus_IZR, mult_IZR. rewrite Rmult_plus_distr_r.
+      replace (IZR d * IZR q * bpow radix2 e)%R with (IZR q * (bpow radix2 e * IZR d))%R by ring.
+      rewrite HdR. ring. }
+    assert (HrR : (0 <= IZR r * bpow radix2 e < 1)%R).
+    { assert (0 <= IZR r)%R by (apply IZR_le; lia).
+      assert (IZR r < IZR d)%R by (apply IZR_lt; lia).
+      split; [nra|]. replace 1%R with (IZR d * bpow radix2 e)%R by lra. nra. }
+    set (z := if s then - (if r =? 0 then q else q + 1) else q).
+    assert (Hzabs : Z.abs z < 2 ^ 53).
+    { unfold z. change (2 ^ 31) with 2147483648 in *. change (2 ^ 53) with 9007199254740992.
+      destruct s; destruct (r =? 0); lia. }
+    assert (Hfl : sf_floor x = sf_of_Z z \/ (sf_floor x = S754_zero false /\ z = 0)).
+    { unfold x. cbn [sf_floor]. destruct (Z.leb_spec 0 e); [lia|]. cbv zeta. fold d. fold q. fold r.
+      unfold z. destruct s; [left; reflexivity|].
+      destruct (Z.eqb_spec q 0); [right; split; [reflexivity|assumption]|left; reflexivity]. }
+    assert (Hdiff : (0 <= B2R xB - IZR z < 1)%R).
+    { rewrite HxR. unfold z. destruct s; cbn [cond_Zopp].
+      - rewrite opp_IZR. destruct (Z.eqb_spec r 0) as [E0|N0].
+        + rewrite E0 in HmR. rewrite opp_IZR. lra.
+        + rewrite opp_IZR, plus_IZR.
+          assert (0 < IZR r)%R by (apply IZR_lt; lia). nra.
+      - lra. }
+    assert (Hzr : - 2 ^ 31 <= z < 2 ^ 31 /\ (if s then z <= -1 else 0 <= z)).
+    { unfold z. change (2 ^ 31) with 2147483648 in *.
+      destruct s.
+      - assert (1 <= q \/ r <> 0).
+        { destruct (Z.eq_dec r 0); [left|right; assumption]. nia. }
+        destruct (Z.eqb_spec r 0); lia.
+      - lia. }
+    destruct Hfl as [Hfl|[Hfl Hz0]].
+    + destruct (sf_of_Z_B z Hzabs) as [flB [HB [HR Hfin]]].
+      exists z, flB. rewrite Hfl. split; [exact HB|]. split; [exact Hfin|]. split; [exact HR|].
+      split; [exact Hdiff|]. split; [|exact Hzr].
+      assert (Hnf : match sf_of_Z z with S754_infinity _ => False | S754_nan => False | _ => True end).
+      { rewrite HB. destruct flB; simpl in Hfin; try discriminate; exact I. }
+      rewrite sf_to_int_trunc by exact Hnf. rewrite sf_of_Z_exact by exact Hzabs.
+      unfold clampZ. change (2 ^ (64 - 1)) with (2 ^ 63). pows. change (2 ^ 31) with 2147483648 in *. lia.
+    + exists z, (B754_zero false : bf). rewrite Hfl. split; [reflexivity|]. split; [reflexivity|].
+      split; [rewrite Hz0; reflexivity|]. split; [exact Hdiff|]. split; [rewrite Hz0; reflexivity|exact Hzr].
+Qed.
+
+Lemma lor_shift32 : forall z t, 0 <= t < 2 ^ 32 -> Z.lor (z * 2 ^ 32) t = z * 2 ^ 32 + t.
+Proof.
+  intros z t Ht.
+  assert (Hl : Z.land (z * 2 ^ 32) t = 0).
+  { apply Z.bits_inj'. intros n Hn. rewrite Z.land_spec, Z.bits_0.
+    destruct (Z.lt_ge_cases n 32).
+    - rewrite Z.mul_pow2_bits_low by lia. reflexivity.
+    - destruct (Z.eq_dec t 0) as [->|Ht0]; [rewrite Z.bits_0; apply andb_false_r|].
+      rewrite (Z.bits_above_log2 t n); [apply andb_false_r|lia|].
+      assert (Z.log2 t < 32) by (apply Z.log2_lt_pow2; lia). lia. }
+  rewrite <- Z.lxor_lor by exact Hl. symmetry. apply Z.add_nocarry_lxor. exact Hl.
+Qed.
+
+Lemma to_signed64_id : forall v, in_i64 v -> to_signed 64 v = v.
+Proof.
+  intros v Hv. destruct (to_signed64_spec v) as [k [E R]]. unfold in_i64 in Hv. pows. lia.
+Qed.
+
+Lemma gf_0 : generic_format radix2 (fexp 53 1024) 0%R.
+Proof. apply generic_format_0. Qed.
+Lemma gf_1 : generic_format radix2 (fexp 53 1024) 1%R.
+Proof.
+  apply generic_format_FLT. apply (FLT_spec radix2 (3 - 1024 - 53) 53 1%R (Float radix2 1 0)).
+  - unfold F2R. simpl. lra.
+  - simpl. lia.
+  - simpl. lia.
+Qed.
+
+Lemma from_seconds_in_range : forall s m e (Hb : SpecFloat.bounded FloatOps.prec FloatOps.emax m e = true),
+  Z.pos m < 2 ^ 53 -> (0 <= e -> Z.pos m * 2 ^ e < 2 ^ 31) -> (e < 0 -> Z.pos m / 2 ^ (- e) < 2 ^ 31) ->
+  let r := from_seconds (S754_finite s m e) in
+  in_i64 r /\ (if s then r < 0 else 0 <= r).
+Proof.
+  intros s m e Hb Hm Hpos Hneg r.
+  destruct (floor_spec s m e Hb Hm Hpos Hneg) as [z [flB [Hfl [Hfin [HR [Hdiff [Hi [Hz Hsg]]]]]]]].
+  set (xB := B754_finite s m e Hb : bf) in *.
+  assert (Hx : S754_finite s m e = B2SF xB) by reflexivity.
+  (* f = x - floor x, rounded, lies in [0, 1] *)
+  pose proof (Bminus_correct FloatOps.prec FloatOps.emax PrimFloat.Hprec PrimFloat.Hmax mode_NE xB flB eq_refl Hfin) as Hsub.
+  rewrite HR in Hsub.
+  assert (Hrnd : (0 <= round radix2 (fexp FloatOps.prec FloatOps.emax) (round_mode mode_NE) (B2R xB - IZR z) <= 1)%R).
+  { split.
+    - apply round_ge_generic; [apply fexp_correct; exact PrimFloat.Hprec|apply valid_rnd_N|apply gf_0|lra].
+    - apply round_le_generic; [apply fexp_correct; exact PrimFloat.Hprec|apply valid_rnd_N|apply gf_1|lra]. }
+  rewrite Rlt_bool_true in Hsub.
+  2:{ rewrite Rabs_pos_eq by lra. apply Rle_lt_trans with 1%R; [lra|].
+      change 1%R with (bpow radix2 0). apply bpow_lt. reflexivity. }
+  destruct Hsub as [HfR [Hffin _]].
+  set (fB := @Bminus FloatOps.prec FloatOps.emax PrimFloat.Hprec PrimFloat.Hmax mode_NE xB flB) in *.
+  (* t = f * (2^32 - 1), rounded, lies in [0, 2^32 - 1] *)
+  destruct (sf_of_Z_B (2 ^ 32 - 1) ltac:(vm_compute; reflexivity)) as [uB [Hu [HuR Hufin]]].
+  pose proof (Bmult_correct FloatOps.prec FloatOps.emax PrimFloat.Hprec PrimFloat.Hmax mode_NE fB uB) as Hmul.
+  rewrite HuR in Hmul.
+  assert (Hgu : generic_format radix2 (fexp FloatOps.prec FloatOps.emax) (IZR (2 ^ 32 - 1))).
+  { rewrite <- HuR. apply generic_format_B2R. }
+  assert (Hu0 : (0 < IZR (2 ^ 32 - 1))%R) by (apply IZR_lt; vm_compute; reflexivity).
+  assert (Hrnd2 : (0 <= round radix2 (fexp FloatOps.prec FloatOps.emax) (round_mode mode_NE) (B2R fB * IZR (2 ^ 32 - 1)) <= IZR (2 ^ 32 - 1))%R).
+  { rewrite HfR. split.
+    - apply round_ge_generic; [apply fexp_correct; exact PrimFloat.Hprec|apply valid_rnd_N|apply gf_0|nra].
+    - apply round_le_generic; [apply fexp_correct; exact PrimFloat.Hprec|apply valid_rnd_N|exact Hgu|nra]. }
+  rewrite Rlt_bool_true in Hmul.
+  2:{ rewrite Rabs_pos_eq by lra. apply Rle_lt_trans with (IZR (2 ^ 32 - 1)); [lra|].
+      change (bpow radix2 FloatOps.emax) with (IZR (2 ^ 1024)). apply IZR_lt.
+      assert (2 ^ 32 < 2 ^ 1024) by (apply Z.pow_lt_mono_r; lia). lia. }
+  destruct Hmul as [HtR [Htfin _]].
+  set (tB := @Bmult FloatOps.prec FloatOps.emax PrimFloat.Hprec PrimFloat.Hmax mode_NE fB uB) in *.
+  rewrite Hffin, Hufin in Htfin. cbn [andb] in Htfin.
+  assert (Ht : 0 <= sf_to_int 64 (fmul (fsub (S754_finite s m e) (sf_floor (S754_finite s m e))) u32max_f) < 2 ^ 32).
+  { rewrite Hfl, Hx, fsub_B. unfold u32max_f. rewrite Hu, fmul_B.
+    change (@Bminus FloatOps.prec FloatOps.emax PrimFloat.Hprec PrimFloat.Hmax mode_NE xB flB) with fB.
+    change (@Bmult FloatOps.prec FloatOps.emax PrimFloat.Hprec PrimFloat.Hmax mode_NE fB uB) with tB.
+    assert (Hnf : match B2SF tB with S754_infinity _ => False | S754_nan => False | _ => True end).
+    { destruct tB; simpl in Htfin; try discriminate; exact I. }
+    rewrite sf_to_int_trunc by exact Hnf.
+    pose proof (sf_trunc_bounds tB (2 ^ 32 - 1) Htfin ltac:(rewrite HtR; exact Hrnd2)) as Hb2.
+    unfold clampZ. change (2 ^ (64 - 1)) with (2 ^ 63). pows. lia. }
+  unfold r, from_seconds. cbv zeta. rewrite Hi.
+  set (t := sf_to_int 64 (fmul (fsub (S754_finite s m e) (sf_floor (S754_finite s m e))) u32max_f)) in *.
+  change (2 ^ 31) with 2147483648 in *.
+  repeat match goal with
+         | |- context [?a <=? ?b] => destruct (Z.leb_spec a b)
+         | |- context [?a <? ?b] => destruct (Z.ltb_spec a b)
+         end; cbn [andb]; try lia.
+  rewrite lor_shift32 by exact Ht.
+  assert (Hin : in_i64 (z * 2 ^ 32 + t)) by (unfold in_i64; pows; lia).
+  rewrite to_signed64_id by exact Hin. split; [exact Hin|].
+  pows. destruct s; lia.
+Qed.
+
+(* conversion from seconds preserves the sign, for EVERY finite 64-bit pattern *)
+Lemma from_seconds_sign_bits : forall b, 0 <= b < 2 ^ 64 ->
+  (b / 2 ^ 52) mod 2 ^ 11 <> 2047 ->
+  let r := from_seconds (sf_of_bits b) in
+  in_i64 r /\ (if Z.testbit b 63 then r <= 0 else 0 <= r).
+Proof.
+  intros b Hb Hfin r.
+  pose proof (valid_sf_of_bits b Hb) as Hv.
+  pose proof (Z.mod_pos_bound (b / 2 ^ 52) (2 ^ 11) ltac:(lia)) as HE.
+  pose proof (Z.mod_pos_bound b (2 ^ 52) ltac:(lia)) as Hmt.
+  destruct (Z.le_gt_cases 1054 ((b / 2 ^ 52) mod 2 ^ 11)) as [Hbig|Hsmall].
+  - (* saturating *)
+    unfold r. rewrite from_seconds_saturates_bits by (try assumption; intro; contradiction).
+    destruct (Z.testbit b 63); unfold in_i64, i64_min, i64_max; pows; lia.
+  - unfold r. revert Hv. unfold sf_of_bits.
+    set (E := (b / 2 ^ 52) mod 2 ^ 11) in *. set (mt := b mod 2 ^ 52) in *.
+    destruct (Z.eqb_spec E 0) as [E0|E0].
+    + destruct (Z.eqb_spec mt 0) as [M0|M0].
+      * intros _. destruct (Z.testbit b 63); vm_compute; split; try split; congruence.
+      * intros Hv. cbn [valid_binary] in Hv.
+        assert (Hm : Z.pos (Z.to_pos mt) = mt) by (apply Z2Pos.id; lia).
+        assert (H52 : 2 ^ 52 < 2 ^ 1074) by (apply Z.pow_lt_mono_r; lia).
+        destruct (from_seconds_in_range (Z.testbit b 63) (Z.to_pos mt) (-1074) Hv) as [Hr Hs].
+        -- rewrite Hm. change (2 ^ 53) with (2 * 2 ^ 52). lia.
+        -- lia.
+        -- intros _. rewrite Hm. change (- -1074) with 1074. rewrite Z.div_small by lia.
+           change (2 ^ 31) with 2147483648. lia.
+        -- split; [exact Hr|]. destruct (Z.testbit b 63); lia.
+    + destruct (Z.eqb_spec E 2047) as [E1|E1]; [contradiction|].
+      intros Hv. cbn [valid_binary] in Hv.
+      assert (Hm : Z.pos (Z.to_pos (mt + 2 ^ 52)) = mt + 2 ^ 52) by (apply Z2Pos.id; lia).
+      destruct (from_seconds_in_range (Z.testbit b 63) (Z.to_pos (mt + 2 ^ 52)) (E - 1075) Hv) as [Hr Hs].
+      * rewrite Hm. change (2 ^ 53) with (2 ^ 52 + 2 ^ 52). lia.
+      * lia.
+      * intros He. rewrite Hm.
+        assert (Hd : 2 ^ 22 <= 2 ^ (- (E - 1075))) by (apply Z.pow_le_mono_r; lia).
+        apply Z.div_lt_upper_bound; [lia|].
+        change (2 ^ 31) with 2147483648. change (2 ^ 22) with 4194304 in Hd.
+        change (2 ^ 52) with 4503599627370496 in *. nia.
+      * split; [exact Hr|]. destruct (Z.testbit b 63); lia.
+Qed.
